@@ -800,6 +800,9 @@ def replay(a, rep, ctx):
         print("replay file holds no case (obligation failure): re-running the whole check")
         run_property(a.pid, ctx)
         return engine.finish(rep, "./check %s --replay %s" % (a.pid, a.replay), PROPS[a.pid]["rule"])
+    if not (case.startswith("hist ") or case.startswith("tok ") or case.startswith("parse") or case.startswith("print ") or case.startswith("fmt ") or case.startswith("charclass ")) \
+            or getattr(rep, "blackbox", False):
+        return None     # a front-end session or a table row: judged by the whole check
     d = os.path.join(core.WORK, a.pid)
     os.makedirs(d, exist_ok=True)
     cp = os.path.join(d, "replay.cases")
@@ -820,7 +823,7 @@ def replay(a, rep, ctx):
     same = all([l for l in ia[c] if not l.startswith("MON ")] == mb.get(c) for c in ia)
     mons = [l for c in ia for l in ia[c] if l.startswith("MON ") or l.split(" ")[0] in ("PANIC", "CRASH", "TIMEOUT")]
     if same and not mons:
-        print("replay: implementation and model agree on this case now")
-        return 0
+        print("replay: implementation and model agree on this one case; the recorded verdict came from an oracle, a monitor or the binary —")
+        return None
     print("VIOLATION property=%s replay=%s" % (a.pid, a.replay))
     return 1
